@@ -693,3 +693,62 @@ def pmap_safe(fn: Callable, items: Sequence, timeout: float = 60.0, workers: int
             if st[0].is_alive():
                 st[0].kill()
     return results
+
+
+# --------------------------------------------------------------------------------------------
+# alpha: proto -> abstract graph JSON for spec/Graph.tla, and the GraphCheck batch run
+# --------------------------------------------------------------------------------------------
+def abstract_graph(g, is_function=False):
+    import onnx
+
+    def node(n):
+        subs = []
+        for a in n.attribute:
+            if a.type == onnx.AttributeProto.GRAPH:
+                subs.append(abstract_graph(a.g))
+            elif a.type == onnx.AttributeProto.GRAPHS:
+                subs += [abstract_graph(x) for x in a.graphs]
+        return {"ins": list(n.input), "outs": list(n.output), "subs": subs, "dom": n.domain or "ai.onnx"}
+
+    if is_function:
+        return {"inputs": list(g.input), "inits": [], "nodes": [node(n) for n in g.node], "outputs": list(g.output)}
+    return {"inputs": [i.name for i in g.input], "inits": [i.name for i in g.initializer if i.name not in {x.name for x in g.input}],
+            "nodes": [node(n) for n in g.node], "outputs": [o.name for o in g.output]}
+
+
+def abstract_model(pid, m):
+    """list of items for GraphCheck: main graph + each model-local function"""
+    imps = [[o.domain or "ai.onnx", o.version] for o in m.opset_import]
+    items = [{"id": pid + "/graph", "graph": abstract_graph(m.graph), "imports": imps}]
+    for f in m.functions:
+        fi = [[o.domain or "ai.onnx", o.version] for o in f.opset_import]
+        items.append({"id": f"{pid}/fn:{f.domain}:{f.name}", "graph": abstract_graph(f, True), "imports": fi})
+    return items
+
+
+def abstract_function(pid, f):
+    fi = [[o.domain or "ai.onnx", o.version] for o in f.opset_import]
+    return [{"id": f"{pid}/functionproto", "graph": abstract_graph(f, True), "imports": fi}]
+
+
+def graphcheck(ctx, items, label="GraphCheck"):
+    """Evaluate Graph!WF (TLA+) on abstract graphs; returns {id: (ssa, scoped, outputs, imports)}"""
+    out = {}
+    if not items:
+        return out
+    B = 1500
+    for off in range(0, len(items), B):
+        path = os.path.join(scratch(), f"graphs_{off}.json")
+        write_tlc_json(path, items[off : off + B])
+        res = run_tlc("GraphCheck", "GraphCheck.cfg", workers=1, env={"GRAPHS_FILE": path}, timeout=1800)
+        ctx.tlc(res, label)
+        if not res.ok:
+            raise MachineryError(f"GraphCheck failed: {res.out[-1500:]}")
+        for pr in res.printed:
+            if pr and pr[0] == "WF":
+                out[pr[1]] = tuple(pr[2:6])
+        os.remove(path)
+    missing = [it["id"] for it in items if it["id"] not in out]
+    if missing:
+        raise MachineryError(f"GraphCheck gave no verdict for {missing[:3]} ...")
+    return out
